@@ -2,6 +2,7 @@ import KeepVerif.Model.C19
 import KeepVerif.Gen.C19
 import KeepVerif.Proofs.C19Wire
 import KeepVerif.Proofs.C19Flat
+import KeepVerif.Proofs.C19Map
 /-!
 # C19 — Wire and storage decoding is total and round-trips
 
@@ -241,10 +242,7 @@ theorem redemption_roundtrip (scripts : List Bytes) (fee : Bytes)
     comes back -/
 theorem unmarshal_marshal_post (M : MsgSpec) (vs vs' : List Val) (hS : SchemaOk M.fields)
     (hc : Canon M.fields vs) (hp : M.post vs = some vs') :
-    M.unmarshal (M.marshal vs) = some (M.marshal vs') := by
-  unfold MsgSpec.unmarshal MsgSpec.marshal MsgSpec.unmarshalF
-  rw [wire_roundtrip _ (encFlat_fieldOk M.fields vs hS.2 hc)]
-  simp [flat_roundtrip M.fields vs hS hc, hp]
+    M.unmarshal (M.marshal vs) = some (M.marshal vs') := unmarshal_marshal_post' M vs vs' hS hc hp
 
 /-- **`_roundtrip` for every decoder type** (all 44 specs of the table, both oracle readings):
     the encoding of a value list that matches the type's schema and that the type's validation
@@ -286,6 +284,109 @@ theorem spec_total (M : MsgSpec) (bs : Bytes) :
   cases M.unmarshal bs with
   | none => exact Or.inl rfl
   | some out => exact Or.inr ⟨out, rfl⟩
+
+/-! ## map-carrying messages: any wire order of the entries -/
+
+/-- gjkr accusation / misbehaved-key messages (`map<uint32, private key>`): entries in any
+    order decode to the key-sorted map; keys ≤ 255, every key a normalised 32-byte scalar
+    (`privCv v = some v`). -/
+theorem accusations_any_order (s : Nat) (sess : Bytes) (kvs l : List (Nat × Bytes))
+    (p : l.Perm kvs) (hs : KeySorted kvs) (hsn : s ≤ 255) (hk : ∀ kv ∈ kvs, kv.1 ≤ 255)
+    (hv : ∀ kv ∈ kvs, kv.2.length < 4294967296) (hcv : ∀ kv ∈ kvs, privCv kv.2 = some kv.2)
+    (hl : sess.length < 2 ^ 64) (hu : isUtf8 sess = true) :
+    (mapSpec3 privCv).unmarshal ((mapSpec3 privCv).marshal [.n s, .ms (l.map entryOf), .b sess]) =
+      some ((mapSpec3 privCv).marshal [.n s, .ms (kvs.map entryOf), .b sess]) :=
+  mapSpec3_any_order privCv s sess kvs l p hs hsn hk hv hcv hl hu
+
+/-- a 32-byte big-endian scalar without a leading zero byte is its own normal form -/
+theorem privCv_fix (v : Bytes) (h32 : v.length = 32) (hnz : v.head? ≠ some 0) : privCv v = some v := by
+  cases v with
+  | nil => simp at h32
+  | cons b r =>
+    have hb : b ≠ 0 := by simpa using hnz
+    have hsz : stripZeros (b :: r) = b :: r := by
+      cases b with
+      | zero => exact absurd rfl hb
+      | succ n => rfl
+    simp [privCv, privNorm, hsz, h32]
+
+/-- tECDSA signing round two (`map<uint32, opaque tss payload>`): any entry order, any payloads -/
+theorem tssPeers_any_order (s : Nat) (sess : Bytes) (kvs l : List (Nat × Bytes))
+    (p : l.Perm kvs) (hs : KeySorted kvs) (hsn : s ≤ 255) (hk : ∀ kv ∈ kvs, kv.1 ≤ 255)
+    (hv : ∀ kv ∈ kvs, kv.2.length < 4294967296) (hl : sess.length < 2 ^ 64) (hu : isUtf8 sess = true) :
+    (mapSpec3 some).unmarshal ((mapSpec3 some).marshal [.n s, .ms (l.map entryOf), .b sess]) =
+      some ((mapSpec3 some).marshal [.n s, .ms (kvs.map entryOf), .b sess]) :=
+  mapSpec3_any_order some s sess kvs l p hs hsn hk hv (fun _ _ => rfl) hl hu
+
+/-! ## composite messages: what an accepted value satisfies -/
+
+theorem decFlat_coordination (fs : List Field) :
+    decFlat coordinationSpec.fields fs = (subMsg fs 4).map fun p =>
+      [.n (lastVarint fs 1 % 4294967296), .n (lastVarint fs 2), .b (lastLen fs 3), .m p] := by
+  simp only [decFlat, coordinationSpec, List.mapM_cons, List.mapM_nil, decField]
+  cases subMsg fs 4 <;> rfl
+
+/-- `coordinationMessage`: an accepted message has a sender ≤ 255, a 20-byte wallet public key
+    hash, a proposal that is present, of a known action type (≤ 5) and itself accepted by that
+    proposal type's decoder. -/
+theorem coordination_ok_valid (bs out : Bytes) (h : coordinationSpec.unmarshal bs = some out) :
+    ∃ s blk hash at_ pl payload, s ≤ 255 ∧ hash.length = 20 ∧ at_ ≤ 5 ∧
+      proposal at_ payload = some pl ∧
+      out = coordinationSpec.marshal [.n s, .n blk, .b hash, .m (some (fU 1 at_ ++ fB 2 pl))] := by
+  obtain ⟨fs, vs, vs', _, h2, h3, h4⟩ := unmarshal_ok_post coordinationSpec bs out h
+  rw [decFlat_coordination] at h2
+  cases hs : subMsg fs 4 with
+  | none => simp [hs] at h2
+  | some op =>
+    simp only [hs, Option.map_some, Option.some.injEq] at h2
+    subst h2
+    cases op with
+    | none => simp [coordinationSpec] at h3
+    | some p =>
+      simp only [coordinationSpec] at h3
+      by_cases hg : (idxOk (lastVarint fs 1 % 4294967296) && (lastLen fs 3).length == 20) = true
+      · simp only [hg, if_true] at h3
+        cases hp : proposal (lastVarint p 1 % 4294967296) (lastLen p 2) with
+        | none => simp [hp] at h3
+        | some pl =>
+          simp only [hp, Option.map_some, Option.some.injEq] at h3
+          simp [idxOk] at hg
+          have hat : lastVarint p 1 % 4294967296 ≤ 5 := by
+            by_cases hle : lastVarint p 1 % 4294967296 ≤ 5
+            · exact hle
+            · exfalso
+              have : proposal (lastVarint p 1 % 4294967296) (lastLen p 2) = none := by
+                unfold proposal
+                split <;> first | omega | rfl
+              rw [this] at hp; exact absurd hp (by simp)
+          exact ⟨_, _, _, _, pl, _, hg.1, hg.2, hat, hp, by rw [h4, ← h3]⟩
+      · simp [hg] at h3
+
+theorem decFlat_thresholdSigner (cvH cvD : Bytes → Option Bytes) (fs : List Field) (vs : List Val)
+    (h : decFlat (thresholdSignerSpec cvH cvD).fields fs = some vs) :
+    ∃ gpk share es ops, vs = [.n (lastVarint fs 1 % 4294967296), .b gpk, .b share, .ms es, .l ops] := by
+  simp only [decFlat, thresholdSignerSpec, List.mapM_cons, List.mapM_nil, decField] at h
+  split at h
+  · cases hm : (lens fs 4).mapM parseMsg with
+    | none => simp [hm] at h
+    | some es =>
+      split at h
+      · simp [hm] at h; exact ⟨_, _, _, _, h.symm⟩
+      · simp [hm] at h
+  · simp at h
+
+/-- `ThresholdSigner` (storage record): an accepted record has a member index ≤ 255 — the
+    truncation of finding 45827cd cannot happen. -/
+theorem thresholdSigner_ok_index (cvH cvD : Bytes → Option Bytes) (bs out : Bytes)
+    (h : (thresholdSignerSpec cvH cvD).unmarshal bs = some out) :
+    ∃ fs, parseMsg bs = some fs ∧ lastVarint fs 1 % 4294967296 ≤ 255 := by
+  obtain ⟨fs, vs, vs', h1, h2, h3, _⟩ := unmarshal_ok_post (thresholdSignerSpec cvH cvD) bs out h
+  refine ⟨fs, h1, ?_⟩
+  obtain ⟨gpk, share, es, ops, rfl⟩ := decFlat_thresholdSigner cvH cvD fs vs h2
+  simp only [thresholdSignerSpec] at h3
+  by_cases hi : idxOk (lastVarint fs 1 % 4294967296) = true
+  · simpa [idxOk] using hi
+  · simp [hi, guard'] at h3
 
 /-! ## defects of the unrepaired tree, one block per finding -/
 
